@@ -693,7 +693,12 @@ impl Bindgen for FunctionBindgen<'_, '_> {
                 if realloc.is_none() {
                     self.push_str(&format!("let {} = {};\n", val, operands[0]));
                 } else {
-                    let op0 = format!("{}.into_bytes()", operands[0]);
+                    // With `raw_strings` the value already is a `Vec<u8>`.
+                    let op0 = if self.r#gen.r#gen.opts.raw_strings {
+                        operands[0].clone()
+                    } else {
+                        format!("{}.into_bytes()", operands[0])
+                    };
                     self.push_str(&format!("let {val} = ({op0}).into_boxed_slice();\n"));
                 }
                 self.push_str(&format!("let {ptr} = {val}.as_ptr().cast::<u8>();\n"));
